@@ -342,6 +342,7 @@ def build_unit(unit, workdir, want_trace_for=None):
         if r["rc"] != 0:
             raise Tooling("replace-calls failed: " + (r["out"] + r["err"])[-2000:])
         cur = b
+    before_pre = cur
     if unit["preunwind"]:
         b = os.path.join(workdir, "pre.gb")
         cmd = ["goto-instrument", "--unwindset", ",".join(unit["preunwind"]), "--unwinding-assertions", cur, b]
@@ -353,9 +354,21 @@ def build_unit(unit, workdir, want_trace_for=None):
     extra = []
     loopfile = None
     if unit["loops"]:
-        loopfile, loopjson = locate_loops(unit, cur, workdir)
-        info["loop_contracts"] = loopjson
-        extra.append(loopfile)
+        try:
+            loopfile, loopjson = locate_loops(unit, cur, workdir)
+            info["loop_contracts"] = loopjson
+            extra.append(loopfile)
+        except Tooling as e:
+            if not str(e).startswith(("loop anchor", "loop symbol")) or unit.get("enforce") or unit["replace"]:
+                raise
+            # The loop structure of the function has changed (a loop was removed, added or
+            # its locals renamed): the loop contracts cannot be attached. Fall back to a
+            # BOUNDED run of the same harness without loop contracts; it can only report
+            # failures of tagged obligations found within the bound (real failures of the
+            # code under the stub contracts), never a pass - see verify_unit.
+            info["bounded_fallback"] = str(e)
+            loopfile = None
+            cur = before_pre  # the pre-unwinding named loops by ordinal: stale after the change
     if unit.get("enforce") or unit["replace"] or loopfile:
         b = os.path.join(workdir, "dfcc.gb")
         cmd = ["goto-instrument", "--dfcc", unit["entry"]]
@@ -582,6 +595,10 @@ def verify_unit(unit, use_cache=True):
            "cached": False, "solver_s": 0.0}
     try:
         gb, info = build_unit(unit, workdir)
+        if info.get("bounded_fallback"):
+            unit = dict(unit, loops=None, unwind=unit.get("fallback_unwind", 3), unwindset=[],
+                        solver=unit["solver"] or "--sat-solver cadical")
+            res["bounded_fallback"] = info["bounded_fallback"]
         res["pipeline"] = info["steps"]
         res["loop_contracts"] = info.get("loop_contracts")
         ckey = info["key"]
@@ -618,6 +635,16 @@ def verify_unit(unit, use_cache=True):
                         re.search(r"loop_invariant|loop_assigns|loop_decreases|loop_step|\.assigns\.", o["id"]):
                     o["kind"] = "excluded"  # contract of a rewritten loop: undecided, not a violation
                     o["desc"] += " [loop header rewritten: contract bound by position, this obligation is not counted]"
+        if res.get("bounded_fallback"):
+            hit = [o for o in obs if o["kind"] == "tagged" and o["status"] == "FAILURE"]
+            if not hit:
+                raise Tooling("loop contracts cannot be attached (%s); the bounded fall-back run (unwind %d) found no failing tagged obligation: undecided" %
+                              (res["bounded_fallback"], unit["unwind"]))
+            for o in obs:
+                if o["kind"] != "tagged" and o["kind"] != "cover" and o["status"] != "SUCCESS":
+                    o["kind"] = "excluded"  # unwinding assertions and the like: the run is bounded on purpose
+            for o in hit:
+                o["desc"] += " [found by the bounded fall-back run: the function's loop structure changed and the loop contracts could not be attached]"
         res["obligations"] = obs
         if not obs:
             raise Tooling("zero obligations generated")
